@@ -675,6 +675,7 @@ func runC03(c *rt.Ctx) {
 	})
 	c.Require("decorated-valid-text", 800)
 	refillRun(c, c.Pick(40000, 400000), "sem")
+	guardedInputs(c, "C03", "sem", []string{"1.2.3", "v1.2.3", "0.0.0", "v10.20.30-rc.1+b7", "1.0.0-alpha", "1.0.0+001", "18446744073709551615.0.1", "v0.0.1-0.a.-", "1.2", "1.2.3-", "v", "1", "1.", "1.2.", "1.2.3+", "01.2.3", "1.2.3-01", "18446744073709551616.0.0", "\xff.1.1"})
 	coldStart(c, "C03", 14)
 
 	nVer := c.Pick(1000000, 10000000)
